@@ -68,7 +68,7 @@ func tagOf(f eng.Field, src string) string {
 
 func streamFront(seed uint64, n int, driver string) (*Summary, error) {
 	sum := newSummary("front", seed)
-	sum.Rule = "random flat record schemas (1..5 fields of string/int (incl. integers beyond 2^53)/bool/time/[]string — half of the list fields under form/query parameters named k[], with lists of one element and blank elements —, Required/Default/tests, random json/form/query/env/zog tags, source tags with options after the name or without a name) and, one case in four, a nested struct field; one record rendered through 6 front ends (Go map, zjson, zhttp JSON, form, query, env — env values padded on either side with ASCII and non-ASCII Unicode white space), in half of the cases through ONE shared schema object with a rotating first front end; non-trivial = at least one tag differs from the schema key or a field is missing; distinct = distinct (schema, record)"
+	sum.Rule = "random flat record schemas (1..5 fields of string/int (incl. integers beyond 2^53)/bool/time/[]string — half of the list fields under form/query parameters named k[], with lists of one element and blank elements —, Required/Default/tests, random json/form/query/env/zog tags, source tags with options after the name or without a name, names containing symbols and separators) and, one case in four, a nested struct field; one record rendered through 6 front ends (Go map, zjson, zhttp JSON, form, query, env — env values padded on either side with ASCII and non-ASCII Unicode white space), in half of the cases through ONE shared schema object with a rotating first front end; non-trivial = at least one tag differs from the schema key or a field is missing; distinct = distinct (schema, record)"
 	root := rng.New(seed)
 	var lines []string
 	var impls []string
@@ -108,6 +108,13 @@ func streamFront(seed uint64, n int, driver string) (*Summary, error) {
 						tv += rng.Pick(r, []string{",omitempty", ",omitempty,string", ","}) // options after the name
 					} else if src != "zog" && r.P(1, 12) {
 						tv = ",omitempty" // no name: the tag does not name the key
+					} else if src != "zog" && r.P(1, 8) {
+						// names made of symbols and separators are names like any other ($ref, a+b, x|y, "first name")
+						deco := rng.Pick(r, []string{"$%s", "%s+x", "%s|y", "~%s", "%s z", "<%s>", "^%s", "%s=1", "%s@", "%s!", "#%s", "%s/%s"})
+						if src == "env" && strings.Contains(deco, "=") {
+							deco = "$%s"
+						}
+						tv = strings.ReplaceAll(deco, "%s", tv)
 					} else if src == "zog" && r.P(1, 6) {
 						tv += rng.Pick(r, []string{",omitempty", ",x"}) // the zog tag is the key as it stands
 					}
